@@ -6,6 +6,9 @@ import (
 	"context"
 	"fmt"
 	"io"
+	"net"
+	"sync"
+	"sync/atomic"
 	"time"
 
 	"github.com/gobwas/ws"
@@ -18,7 +21,10 @@ import (
 	"google.golang.org/genproto/googleapis/api/annotations"
 	"google.golang.org/genproto/googleapis/api/serviceconfig"
 	"google.golang.org/grpc"
+	"google.golang.org/grpc/credentials/insecure"
+	grpchealth "google.golang.org/grpc/health"
 	healthpb "google.golang.org/grpc/health/grpc_health_v1"
+	"google.golang.org/grpc/reflection"
 	"google.golang.org/protobuf/encoding/protojson"
 	"google.golang.org/protobuf/proto"
 	"google.golang.org/protobuf/types/descriptorpb"
@@ -415,8 +421,9 @@ type HCase struct {
 	Watch    bool     `json:"watch"` // also follow the first service over the documented WebSocket binding (Health.Watch)
 	Services []string `json:"services"`
 	Statuses []int32  `json:"statuses"`
-	Queries  []string `json:"queries"` // service names asked for (may be unknown); "\x00none" = no parameter
-	Overall  int32    `json:"overall"` // status set on "" (0 = leave default)
+	Queries  []string `json:"queries"`   // service names asked for (may be unknown); "\x00none" = no parameter
+	Overall  int32    `json:"overall"`   // status set on "" (0 = leave default)
+	Proxied  bool     `json:"proxied"`   // the health service lives on a backend reached through RegisterConn (discovered by reflection) instead of being registered on the mux itself
 	UserRule int      `json:"user_rule"` // the config also holds a user rule of its own on Health.Check (get /livez): 1 = added before AddHealthz is called, 2 = after (0 = none)
 }
 
@@ -436,7 +443,18 @@ func CheckHealth(c HCase) []evid.Violation {
 	if err != nil {
 		panic(err)
 	}
-	healthpb.RegisterHealthServer(mux, hs)
+	if c.Proxied {
+		be := healthBackend()
+		be.cur.Store(hs)
+		ctx, cancel := context.WithTimeout(context.Background(), 20*time.Second)
+		err := mux.RegisterConn(ctx, be.cc)
+		cancel()
+		if err != nil {
+			return []evid.Violation{evid.V("healthz-proxied", "register-conn", "RegisterConn of a backend serving grpc.health.v1.Health: %v", err)}
+		}
+	} else {
+		healthpb.RegisterHealthServer(mux, hs)
+	}
 	model := map[string]healthpb.HealthCheckResponse_ServingStatus{"": healthpb.HealthCheckResponse_SERVING}
 	if c.Overall != 0 {
 		hs.SetServingStatus("", healthpb.HealthCheckResponse_ServingStatus(c.Overall))
@@ -481,6 +499,46 @@ func CheckHealth(c HCase) []evid.Violation {
 		vs = append(vs, checkWatch(c, mux, hs, model)...)
 	}
 	return vs
+}
+
+// swapHealth is the health service of the process-wide backend; it answers from the health server of the
+// case being checked.
+type swapHealth struct {
+	healthpb.UnimplementedHealthServer
+	cur atomic.Pointer[grpchealth.Server]
+	cc  *grpc.ClientConn
+}
+
+func (s *swapHealth) Check(ctx context.Context, r *healthpb.HealthCheckRequest) (*healthpb.HealthCheckResponse, error) {
+	return s.cur.Load().Check(ctx, r)
+}
+func (s *swapHealth) Watch(r *healthpb.HealthCheckRequest, st healthpb.Health_WatchServer) error {
+	return s.cur.Load().Watch(r, st)
+}
+
+var (
+	hbOnce sync.Once
+	hb     *swapHealth
+)
+
+// healthBackend starts (once) a real gRPC server with the health service and reflection.
+func healthBackend() *swapHealth {
+	hbOnce.Do(func() {
+		hb = &swapHealth{}
+		srv := grpc.NewServer()
+		healthpb.RegisterHealthServer(srv, hb)
+		reflection.Register(srv)
+		ln, err := net.Listen("tcp", "127.0.0.1:0")
+		if err != nil {
+			panic(err)
+		}
+		go srv.Serve(ln)
+		hb.cc, err = grpc.NewClient(ln.Addr().String(), grpc.WithTransportCredentials(insecure.NewCredentials()))
+		if err != nil {
+			panic(err)
+		}
+	})
+	return hb
 }
 
 // checkWatch dials ws /v1/healthz?service=S (Health.Watch): the watcher must
@@ -565,13 +623,17 @@ func TestPropHealthz(t *testing.T) {
 		c.Overall = int32(rapid.IntRange(0, 2).Draw(t, "overall"))
 		c.Watch = rapid.IntRange(0, 7).Draw(t, "watch") == 0
 		c.UserRule = rapid.SampledFrom([]int{0, 0, 1, 2}).Draw(t, "userRule")
+		c.Proxied = rapid.IntRange(0, 7).Draw(t, "proxied") == 0
 		c.Queries = append(c.Queries, "\x00none")
 		c.Queries = append(c.Queries, c.Services...)
 		c.Queries = append(c.Queries, nameGen.Filter(func(s string) bool { return s != "" && isValidUTF8(s) }).Draw(t, "unknown"))
 		vs := CheckHealth(c)
 		key := ""
 		if n > 0 {
-			key = fmt.Sprintf("h|%v|%v|%d|%d", c.Services, c.Statuses, c.Overall, c.UserRule)
+			key = fmt.Sprintf("h|%v|%v|%d|%d|%v", c.Services, c.Statuses, c.Overall, c.UserRule, c.Proxied)
+		}
+		if c.Proxied {
+			evid.Count("healthz-behind-a-connection", 1)
 		}
 		if c.Watch {
 			evid.Eval(key, "healthz", "healthz-ws-watch")
